@@ -138,6 +138,14 @@ def step (st : St) (line : String) : St × String :=
       | some [a, b, c, d, e, f, g, h, i, x, y, z] =>
           (st, fmtF (dist2triFixed (v3 a b c) (v3 d e f) (v3 g h i) (v3 x y z)))
       | _ => (st, "bad-op")
+  | "bspheren" :: ws => match parseFs? ws with
+      | some fs =>
+          if fs.length % 3 == 0 && fs.length ≥ 3 && fs.length ≤ 81 then
+            -- the harness passes the node index list in reverse order of creation
+            let (c, r) := boundingSphere (ptsOf fs).reverse
+            (st, fmtFs [c.x, c.y, c.z, r])
+          else (st, "bad-op")
+      | none => (st, "bad-op")
   | "bsphere" :: ws => match parseFs? ws with
       | some fs =>
           if fs.length % 3 == 0 && fs.length ≥ 3 then
